@@ -356,3 +356,111 @@ func probeInMemoryBucket() string {
 	return "ok"
 }
 
+// probeRejectedAtStorage (C20): a CREATE that is rejected while the storage is opened (the bucket
+// does not exist) leaves no table registered: the corrected statement under the SAME name succeeds.
+func probeRejectedAtStorage() string {
+	px := getProxy()
+	bucket := fmt.Sprintf("prs%d", nextCounter())
+	db, err := sql.Open("sqlite3", ":memory:")
+	if err != nil {
+		return "FAIL " + err.Error()
+	}
+	defer db.Close()
+	db.SetMaxOpenConns(1)
+	name := fmt.Sprintf("prs_t%d", nextCounter())
+	stmt := func(b string) string {
+		return fmt.Sprintf("create virtual table %s using s3db(s3_bucket='%s', s3_endpoint='%s', s3_prefix='p', columns='k primary key, v')", name, b, px.url)
+	}
+	if _, err := db.Exec(stmt(bucket)); err == nil {
+		return "FAIL a table on a bucket that does not exist was created"
+	}
+	if err := px.backend.CreateBucket(bucket); err != nil {
+		return "FAIL setup: " + err.Error()
+	}
+	if _, err := db.Exec(stmt(bucket)); err != nil {
+		return "FAIL after a CREATE that was rejected while opening the storage, the same name cannot be created: " + err.Error()
+	}
+	if _, err := db.Exec("insert into " + name + " values (1, 1)"); err != nil {
+		return "FAIL insert: " + err.Error()
+	}
+	return "ok"
+}
+
+// probeInvalidText (C08): TEXT that is not valid UTF-8 cannot be stored (protobuf string): the
+// statement is refused with an error and nothing is stored or altered.
+func probeInvalidText() string {
+	px := getProxy()
+	bucket := fmt.Sprintf("pit%d", nextCounter())
+	if err := px.backend.CreateBucket(bucket); err != nil {
+		return "FAIL setup: " + err.Error()
+	}
+	db, err := sql.Open("sqlite3", ":memory:")
+	if err != nil {
+		return "FAIL " + err.Error()
+	}
+	defer db.Close()
+	db.SetMaxOpenConns(1)
+	name := fmt.Sprintf("pit_t%d", nextCounter())
+	if _, err := db.Exec(fmt.Sprintf("create virtual table %s using s3db(s3_bucket='%s', s3_endpoint='%s', s3_prefix='p', columns='k primary key, v')", name, bucket, px.url)); err != nil {
+		return "FAIL create: " + err.Error()
+	}
+	if _, err := db.Exec("insert into " + name + " values (1, 'good')"); err != nil {
+		return "FAIL insert: " + err.Error()
+	}
+	attempts := []struct {
+		what string
+		stmt string
+		args []interface{}
+	}{
+		{"INSERT of CAST(x'ff41' AS TEXT) in a column", "insert into " + name + " values (2, cast(x'ff41' as text))", nil},
+		{"INSERT of a bound Latin-1 string", "insert into " + name + " values (3, ?)", []interface{}{"caf\xe9"}},
+		{"UPDATE to invalid text", "update " + name + " set v = cast(x'c328' as text) where k = 1", nil},
+		{"INSERT of invalid text as the key", "insert into " + name + " values (cast(x'ff' as text), 1)", nil},
+	}
+	for _, a := range attempts {
+		var err error
+		if catch(func() { _, err = db.Exec(a.stmt, a.args...) }) {
+			return "FAIL " + a.what + " panics"
+		}
+		if err == nil {
+			return "FAIL " + a.what + " is accepted (a value that cannot be stored must be refused, never altered)"
+		}
+	}
+	var n int
+	var v string
+	if err := db.QueryRow("select count(*), max(v) from " + name).Scan(&n, &v); err != nil {
+		return "FAIL select: " + err.Error()
+	}
+	if n != 1 || v != "good" {
+		return fmt.Sprintf("FAIL after the refused statements the table holds %d rows, v=%q (expected 1 row, 'good')", n, v)
+	}
+	return "ok"
+}
+
+// probeEncryptorReuse (C18): equal plaintext under the same passphrase yields equal ciphertext —
+// also from ONE long-lived encryptor that sealed other (longer) messages in between, and from a
+// fresh encryptor with the same passphrase.
+func probeEncryptorReuse() string {
+	e := kv.V1NodeEncryptor([]byte("pass"))
+	small, large := []byte("a small node"), bytes.Repeat([]byte("a much larger node "), 700)
+	c1, err := e.Encrypt("x", small)
+	if err != nil {
+		return "FAIL encrypt: " + err.Error()
+	}
+	if _, err := e.Encrypt("x", large); err != nil {
+		return "FAIL encrypt: " + err.Error()
+	}
+	c3, _ := e.Encrypt("x", small)
+	c4, _ := kv.V1NodeEncryptor([]byte("pass")).Encrypt("x", small)
+	if !bytes.Equal(c1, c3) {
+		return "FAIL the same plaintext is sealed to different bytes by one encryptor before and after it sealed a longer message"
+	}
+	if !bytes.Equal(c1, c4) {
+		return "FAIL two encryptors with the same passphrase seal the same plaintext to different bytes"
+	}
+	if m, err := e.Decrypt("x", c3); err != nil || !bytes.Equal(m, small) {
+		return "FAIL round trip"
+	}
+	return "ok"
+}
+
